@@ -136,7 +136,7 @@ func C15(c *core.Ctx) {
 	rng := rand.New(rand.NewSource(c.Seed))
 	n := c.Pick(160, 3000)
 	jobs := make([]inferJob, n)
-	accts := []string{"Expenses:Food", "Expenses:Rent", "Expenses:Fun:Cinema", "Assets:Cash", "Income:Gifts", "Liabilities:Card"}
+	accts := []string{"Expenses:Food", "Expenses:Rent", "Expenses:Fun:Cinema", "Assets:Cash", "Income:Gifts", "Liabilities:Card", "Expenses:Büro", "Expenses:Café:Zürich"}
 	words := []string{"coop", "migros", "rent", "cinema", "atm", "gift", "über", "café"}
 	for i := range jobs {
 		P := []string{"Expenses:TBD", "Expenses:TBD", "Assets:Unknown", "Equity:Todo"}[rng.Intn(4)]
